@@ -20,7 +20,7 @@ ASSUMPTIONS = ['model.MN (set-based tree model written for this check) is '
                'the reference', 'lca/sibling pairs are sampled (<= 400 pairs) '
                'for trees with more than 12 nodes']
 WATCHDOG = {'quick': 600, 'thorough': 3600}
-MIN = {'quick': {'distinct': 300,
+MIN = {'quick': {'distinct': 300, 'strata': {'after in-place change': 300},
                  'hooks': {'trees.children': 1000, 'trees.terminals': 1000,
                            'trees.preorder': 300, 'trees.postorder': 300,
                            'trees.lca': 1000, 'trees.left_sibling': 500,
@@ -269,10 +269,44 @@ def install(R):
                      post_numbering)
 
 
-def run_tree(ctx, spec, rng):
+def mutate_in_place(m, rng):
+    """Move one node to another constituent through the raw attributes
+    (children / parent), keeping the tree well formed.  Returns True when
+    something was moved."""
+    nodes = m.nodes()
+    cands = [n for n in nodes if n.parent is not None
+             and len(n.parent.children) > 1]
+    rng.shuffle(cands)
+    for x in cands:
+        below = set(id(y) for y in x.nodes())
+        targets = [p for p in nodes if p.children and id(p) not in below
+                   and p is not x.parent]
+        if not targets:
+            continue
+        p = rng.choice(targets)
+        x.ref.parent.children.remove(x.ref)
+        p.ref.children.append(x.ref)
+        x.ref.parent = p.ref
+        return True
+    return False
+
+
+def run_tree(ctx, spec, rng, again=True):
     R = ctx.R
     T = R.trees
     live = model.build_live_tree(spec, T, rng)
+    evaluate(ctx, spec, live, rng)
+    if again and rng.random() < 0.3:
+        # the same node objects after an in-place change: nothing computed for
+        # the old shape may survive
+        defects, m = model.snapshot(live)
+        if mutate_in_place(m, rng):
+            evaluate(ctx, spec, live, rng, tag='after in-place change')
+
+
+def evaluate(ctx, spec, live, rng, tag=None):
+    R = ctx.R
+    T = R.trees
     defects, m = model.snapshot(live)
     if defects:
         raise RuntimeError('generator produced ill-formed tree: %r' % defects)
@@ -305,6 +339,8 @@ def run_tree(ctx, spec, rng):
     ncons = len([n for n in nodes if n.children])
     ntok = len(m.toks())
     ctx.case(model.canon(m, 'p'), nontrivial=ntok >= 3 and ncons >= 2)
+    if tag:
+        ctx.stratum(tag)
     ctx.stratum('gapdeg=%d' % min(model.gapdeg(m), 3))
     ctx.stratum('tokens<=5' if ntok <= 5 else 'tokens<=12' if ntok <= 12
                 else 'tokens>12')
